@@ -25,7 +25,8 @@ enum VsReason {
   VS_R_G_ABORT = 11,
   VS_R_LOCK = 12,         // about to take a pthread mutex
   VS_R_LOCK_BLOCKED = 13, // mutex / once owned by another simulated thread
-  VS_R_UNLOCK = 14
+  VS_R_UNLOCK = 14,
+  VS_R_CV = 15            // condition variable: waiting (blocked) / after a notify (tag = first-seen ordinal)
 };
 
 enum VsPolicy { VS_P_UNIFORM = 0, VS_P_PCT = 1, VS_P_STICKY = 2 };
@@ -56,6 +57,9 @@ int vs_used_freerun(void);              // the watchdog stopped serialising (a t
 void vs_set_watchdog_ms(long stuck_ms, long freerun_ms);
 long vs_lock_blocks(void);
 long vs_lock_ops(void);
+// condition variables (simulated: wait = unlock + block until notified + relock; timed waits expire when the
+// simulated clock has nothing else to run): waits, notifies, notifies that found no waiter, expired timed waits
+void vs_cv_stats(long* waits, long* notifies, long* empty_notifies, long* timeouts);
 long vs_steps(void);
 uint64_t vs_event_hash(void);
 long vs_switches(void);
